@@ -153,9 +153,23 @@ impl ListItem {
     requires h_basic(*old(self)), h_active(*old(self), base@ as int)
     ensures h_same_params(*old(self), *final(self)), final(self).head_idx == old(self).head_idx,
         final(self).items@ == old(self).items@.update(base@ as int % h_cap(*old(self)), ListItem { used_base: true, ..h_it(*old(self), base@ as int) }),
+        h_wf(*old(self)) ==> h_wf(*final(self)),
+        forall|j: int| h_active(*old(self), j) ==> h_used_index(*final(self), j) == h_used_index(*old(self), j)
+            && h_used_base(*final(self), j) == (h_used_base(*old(self), j) || j == base@),
 //@}
 //@start{
     proof { reveal(h_it); }
+    let ghost h0 = *self;
+//@}
+//@after 1 self.get_mut(base.get()).use_base();{
+    proof {
+        lemma_window(h0);
+        lemma_update_frame(h0, *self, h_lo(h0), h_hi(h0), base@ as int, ListItem { used_base: true, ..h_it(h0, base@ as int) });
+        if h_wf(h0) {
+            let f0 = h_cells(h0); let f1 = h_cells(*self);
+            lemma_flag_congr(f0, f1, h0.head_idx, h_lo(h0), h_hi(h0));
+        }
+    }
 //@}
 //@fn use_index
 //@head{
